@@ -72,7 +72,9 @@ Definition num_after_int (l : list N) : option (list N) :=
   end.
 Definition num_int (l : list N) : option (list N) :=           (* at the first digit *)
   match l with
-  | d :: r => if d =? 48 then num_after_int r
+  | d :: r => if d =? 48 then
+                (* a zero directly followed by a digit is a malformed token, not "0" and then garbage *)
+                match r with d2 :: _ => if digit d2 then None else num_after_int r | [] => num_after_int r end
               else if digit d then num_after_int (digits r) else None
   | [] => None
   end.
